@@ -12,7 +12,7 @@ PROPS = {
                    'The concurrent union-find is not covered by proof (sequential-semantics bounded stand-in only); linearizability '
                    'under interleavings is outside the family and is stated as unchecked.',
         level_note='Trusted: NumericId axioms for a generic Value (ix injective, ==/cmp follow the index; discharged for the concrete '
-                   'newtypes by the loop-free Kani unit U-ID when built), core::cmp::min/max specification, Vec specs of vstd, '
+                   'newtypes by the loop-free Kani unit U-ID: harnesses id_axioms_u32 / id_axioms_usize run in the quick tier), core::cmp::min/max specification, Vec specs of vstd, '
                    'rewrite R-HOIST/R-RET, id.ix() < usize::MAX. Concurrency unchecked.',
         assumptions=['partial correctness: from_usize panics on id overflow; Vec capacity overflow aborts',
                      'concurrent::UnionFind interleavings are NOT checked (no thread support in Kani/Verus for this code)'],
@@ -118,7 +118,7 @@ PROPS = {
                    'with the given sort value (or the partition point), and fast_subset on the sort column returns EXACTLY the rows whose sort value (timestamp) satisfies the constraint, '
                    'over the offsets abstraction (runs of strictly increasing sort values and row ids). (unit index) SubsetTracker::recent_updates hands out only the rows added since the version seen last within a major generation and everything otherwise, and records the version; Index::refresh is a no-op iff the versions agree, a full rebuild iff the major generation changed, the delta otherwise, and ends at the table\'s version. The row store, hash shards, insert/rehash/rebuild of SortedWritesTable and the index contents are NOT covered.',
         level_note='Trusted: HashMap as a finite map (A-hash), [T]::binary_search_by_key specification for a total key closure (A-std), NumericId axioms, '
-                   'UnionFind::reset (iterator adapters; assumed), OffsetRange::new debug_assert taken as precondition; merge()/get_row() (SegQueue, pool closures) not covered. '
+                   'OffsetRange::new debug_assert taken as precondition; merge()/get_row() (SegQueue, pool closures) not covered. '
                    'Trait impl `impl Table for DisplacedTable` emitted as inherent impl (R-INHERENT).',
         assumptions=['SortedWritesTable, Rows, ShardedHashTable, rehash, remove_stale: assumed (unsafe, hashbrown)'],
     ),
@@ -149,7 +149,7 @@ PROPS = {
                    '(merge) the container merge closure of register_container_ty keeps min(old,new) and stages exactly that union; (driver) every rebuild pass rebuilds containers '
                    'before tables, refreshes rows with exactly that pass\'s dirty ids and timestamp, and stops only when container rebuild, table rebuild and refresh all report no change. '
                    'The container environments themselves (DashMap hash-consing, apply_rebuild_*, val_index maintenance) and Set/Map/MultiSet rebuild_contents are NOT covered.',
-        level_note='Trusted: ValueRebuilder::rebuild_slice default body (iter_mut; assumed), IndexSet as a set, DynamicContainerEnv::extend_containers_containing adds exactly the direct '
+        level_note='Trusted: IndexSet as a set, ValueRebuilder::rebuild_val as a pure function of (rebuilder, value) [the default rebuild_slice body IS verified, R-ITERMUT], DynamicContainerEnv::extend_containers_containing adds exactly the direct '
                    'parents recorded in val_index, DenseIdMap::iter; rewrites R-INTOVEC, R-ITER, R-AUTOTRAIT (dyn T + Send + Sync -> dyn T), R-INHERENT; the Database contracts of C04.',
         assumptions=['ContainerEnv (DashMap, trait objects) and refresh_rows_for_values (hashbrown index) assumed', 'termination of the closure loop not claimed'],
     ),
